@@ -13,16 +13,18 @@ Section Main.
   Variable o_annotated : node -> list value -> outcome.
   Variable rel_prim : binop -> value -> value -> bool.
   Variable loose_prim : value -> value -> bool.
+  Variable o_heritage : value -> outcome.
+  Variable default_runs : node -> nat -> bool.
   Hypothesis no_tdz : forall r, is_unbound r = false -> env r <> None.
   Hypothesis imports_initialised : forall r, imp r <> None.
 
-  Notation ev := (eval is_unbound env glob imp this_val o_toprim o_iter o_get o_opaque o_annotated rel_prim loose_prim).
+  Notation ev := (eval is_unbound env glob imp this_val o_toprim o_iter o_get o_opaque o_annotated rel_prim loose_prim o_heritage default_runs).
   Notation ev_items := (eval_items_with o_iter ev).
   Notation ev_props := (eval_props_with o_toprim o_opaque ev).
   Notation ev_parts := (eval_parts_with o_toprim ev).
   Notation cr := (can_remove is_unbound).
-  Notation good := (good is_unbound env glob imp this_val o_toprim o_iter o_get o_opaque o_annotated rel_prim loose_prim).
-  Notation flags_ok := (flags_ok is_unbound env glob imp this_val o_toprim o_iter o_get o_opaque o_annotated rel_prim loose_prim).
+  Notation good := (good is_unbound env glob imp this_val o_toprim o_iter o_get o_opaque o_annotated rel_prim loose_prim o_heritage default_runs).
+  Notation flags_ok := (flags_ok is_unbound env glob imp this_val o_toprim o_iter o_get o_opaque o_annotated rel_prim loose_prim o_heritage default_runs).
 
   Definition IHn (n : nat) : Prop :=
     forall c, (depth c < n)%nat -> flags_ok c -> cr c = true -> good c.
@@ -136,7 +138,7 @@ Section Main.
     assert (Dx : (depth x < n)%nat) by lia.
     specialize (IHl Dr F2 C2).
     destruct x; simpl in C1; try discriminate C1.
-    destruct F1 as [FK FV].
+    destruct F1 as [FK [FV _]].
     assert (KS : k <> KSpread) by (intro; subst; discriminate C1).
     assert (C1' : negb (computed && negb (is_primitive_literal x) && negb (is_symbol_instance x)) && opt_all cr value = true)
       by (destruct k; try exact C1; congruence).
@@ -145,7 +147,7 @@ Section Main.
     { destruct computed; [|eexists; reflexivity]. apply key_ok; [exact FK|].
       simpl in CK. apply negb_true_iff in CK. apply andb_false_iff in CK as [CK|CK]; apply negb_false_iff in CK; auto. }
     assert (EV : exists v, (match value with Some v => ev v | None => ret VUndef end) = ([], Ok v)).
-    { destruct value as [v|]; [|eexists; reflexivity]. simpl in CV.
+    { destruct value as [v|]; [|eexists; reflexivity]. simpl in CV, FV.
       assert (Dv : (depth v < n)%nat) by (simpl in Dx; lia).
       destruct (IH v Dv FV CV) as [w [E _]]. exists w. exact E. }
     destruct EK as [vk EK]. destruct EV as [vv EV].
@@ -169,10 +171,122 @@ Section Main.
 
   Ltac lit := eexists; split; [reflexivity | simpl; auto].
 
-  Theorem removable_good : forall n e, (depth e < n)%nat -> flags_ok e -> cr e = true -> good e.
+  (* esbuild's documented concession: a class heritage is a constructor whose
+     "prototype" read runs no user code *)
+  Hypothesis heritage_ok : forall v, exists w, o_heritage v = ([], Ok w).
+
+  Lemma bind_ret2 v k : bind (ret v) k = k v.
+  Proof. unfold ret. apply bind_ret. Qed.
+
+  Notation so := (stmt_ok0 is_unbound).
+  Definition IHs (n : nat) : Prop :=
+    forall c, (depth c < n)%nat -> flags_ok c -> so c = true -> exists v, ev c = ([], Ok v).
+
+  Lemma seq_ok n (IH : IHs n) : forall l,
+    (dlist depth l < n)%nat -> all_ok flags_ok l -> forallb so l = true ->
+    eval_seq_with ev l = ([], Ok VUndef).
   Proof.
-    induction n as [|n IH]; intros e D F C; [lia|].
-    assert (IH' : IHn n) by exact IH. clear IH.
+    induction l as [|x r IHl]; intros D F C; [reflexivity|].
+    change (dlist depth (x :: r)) with (Nat.max (depth x) (dlist depth r)) in D.
+    simpl in F, C. apply andb_true_iff in C as [C1 C2]. destruct F as [F1 F2].
+    destruct (IH x ltac:(lia) F1 C1) as [v E].
+    change (eval_seq_with ev (x :: r)) with (bind (ev x) (fun _ => eval_seq_with ev r)).
+    rewrite E, bind_ret. apply IHl; [lia | exact F2 | exact C2].
+  Qed.
+
+  Definition member_pred (use_define : bool) (p : node) : bool :=
+    match p with
+    | PProp k computed static dec argdec key value init block =>
+      match k with
+      | KStaticBlock => forallb so block
+      | _ =>
+        negb dec
+        && negb (computed && negb (is_primitive_literal key) && negb (is_symbol_instance key))
+        && negb (match k with KMethod => argdec | _ => false end)
+        && (if static then opt_all cr value && opt_all cr init
+                            && negb (match k with KField => negb use_define | _ => false end)
+            else true)
+      end
+    | _ => false
+    end.
+
+  Lemma opt_eval_ok n (IH : IHn n) o : (dopt depth o < n)%nat -> opt_ok flags_ok o -> opt_all cr o = true ->
+    exists v, opt_eval ev o = ([], Ok v).
+  Proof.
+    destruct o as [x|]; simpl; intros D F C; [|eexists; reflexivity].
+    destruct (IH x D F C) as [v [E _]]. exists v. exact E.
+  Qed.
+
+  Lemma members_ok n (IH : IHn n) (IS : IHs n) whole ud : forall l,
+    (dlist depth l < n)%nat -> all_ok flags_ok l -> forallb (member_pred ud) l = true ->
+    eval_members_with o_toprim o_opaque ev whole ud l = ([], Ok (VObj 0)).
+  Proof.
+    induction l as [|x r IHl]; intros D F C; [reflexivity|].
+    change (dlist depth (x :: r)) with (Nat.max (depth x) (dlist depth r)) in D.
+    simpl in F, C. apply andb_true_iff in C as [C1 C2]. destruct F as [F1 F2].
+    assert (Dr : (dlist depth r < n)%nat) by lia.
+    assert (Dx : (depth x < n)%nat) by lia.
+    specialize (IHl Dr F2 C2).
+    destruct x; simpl in C1; try discriminate C1.
+    destruct F1 as [FK [FV [FI FB]]]. simpl in Dx.
+    destruct k.
+    all: try (
+      (* ordinary members *)
+      apply andb_true_iff in C1 as [C1 CS]; apply andb_true_iff in C1 as [C1 CA];
+      apply andb_true_iff in C1 as [CD CK]; apply negb_true_iff in CD; apply negb_true_iff in CA;
+      assert (EK : exists v, (if computed then bind (ev x) (to_key o_toprim) else ret VUndef) = ([], Ok v))
+        by (destruct computed; [|eexists; reflexivity]; apply key_ok; [exact FK|];
+            simpl in CK; apply negb_true_iff in CK; apply andb_false_iff in CK as [CK|CK]; apply negb_false_iff in CK; auto);
+      destruct EK as [vk EK]).
+    - (* KNormal *)
+      cbn [eval_members_with]. rewrite CD. simpl orb. cbv iota. rewrite EK, bind_ret.
+      destruct static.
+      + apply andb_true_iff in CS as [CS _]. apply andb_true_iff in CS as [CV CI].
+        destruct (opt_eval_ok n IH value ltac:(lia) FV CV) as [v1 E1].
+        destruct (opt_eval_ok n IH init ltac:(lia) FI CI) as [v2 E2].
+        rewrite E1, bind_ret, E2, bind_ret. exact IHl.
+      + rewrite bind_ret2. exact IHl.
+    - (* KSpread *)
+      cbn [eval_members_with]. rewrite CD. simpl orb. cbv iota. rewrite EK, bind_ret.
+      destruct static.
+      + apply andb_true_iff in CS as [CS _]. apply andb_true_iff in CS as [CV CI].
+        destruct (opt_eval_ok n IH value ltac:(lia) FV CV) as [v1 E1].
+        destruct (opt_eval_ok n IH init ltac:(lia) FI CI) as [v2 E2].
+        rewrite E1, bind_ret, E2, bind_ret. exact IHl.
+      + rewrite bind_ret2. exact IHl.
+    - (* KMethod *)
+      cbn [eval_members_with]. rewrite CD, CA. simpl orb. cbv iota. rewrite EK, bind_ret.
+      destruct static.
+      + apply andb_true_iff in CS as [CS _]. apply andb_true_iff in CS as [CV CI].
+        destruct (opt_eval_ok n IH value ltac:(lia) FV CV) as [v1 E1].
+        destruct (opt_eval_ok n IH init ltac:(lia) FI CI) as [v2 E2].
+        rewrite E1, bind_ret, E2, bind_ret. exact IHl.
+      + rewrite bind_ret2. exact IHl.
+    - (* KField *)
+      cbn [eval_members_with]. rewrite CD. simpl orb. cbv iota. rewrite EK, bind_ret.
+      destruct static.
+      + apply andb_true_iff in CS as [CS CU]. apply andb_true_iff in CS as [CV CI].
+        apply negb_true_iff in CU. rewrite CU.
+        destruct (opt_eval_ok n IH value ltac:(lia) FV CV) as [v1 E1].
+        destruct (opt_eval_ok n IH init ltac:(lia) FI CI) as [v2 E2].
+        rewrite E1, bind_ret, E2, bind_ret. exact IHl.
+      + rewrite bind_ret2. exact IHl.
+    - (* KStaticBlock *)
+      cbn [eval_members_with].
+      rewrite (seq_ok n IS block ltac:(lia) FB C1), bind_ret. exact IHl.
+    - (* KOtherKind *)
+      cbn [eval_members_with]. rewrite CD. simpl orb. cbv iota. rewrite EK, bind_ret.
+      destruct static.
+      + apply andb_true_iff in CS as [CS _]. apply andb_true_iff in CS as [CV CI].
+        destruct (opt_eval_ok n IH value ltac:(lia) FV CV) as [v1 E1].
+        destruct (opt_eval_ok n IH init ltac:(lia) FI CI) as [v2 E2].
+        rewrite E1, bind_ret, E2, bind_ret. exact IHl.
+      + rewrite bind_ret2. exact IHl.
+  Qed.
+
+  Lemma expr_step n (IH' : IHn n) (IS : IHs n) : forall e, (depth e < S n)%nat -> flags_ok e -> cr e = true -> good e.
+  Proof.
+    intros e D F C.
     destruct e; cbn in C; try discriminate C; try (unfold PurityProofs.good; lit; fail).
     - (* EIdent *)
       destruct F as [-> F]. unfold PurityProofs.good. cbn. unfold read_ident. destruct (is_unbound ref) eqn:U.
@@ -195,11 +309,11 @@ Section Main.
       change (ev (EIf e1 e2 e3)) with (bind (ev e1) (fun v => if truthy v then ev e2 else ev e3)).
       rewrite Ec, bind_ret. simpl kpt. destruct (truthy vc) eqn:T.
       + destruct (guard_ok is_unbound e2 e1 true) eqn:G.
-        * destruct (guard_sound _ _ _ _ _ _ _ _ _ _ _ _ e2 e1 true vc G F2 F1 Ec T) as [v E].
+        * destruct (guard_sound _ _ _ _ _ _ _ _ _ _ _ _ _ _ e2 e1 true vc G F2 F1 Ec T) as [v E].
           exists v. split; [exact E|]. rewrite (guard_kpt _ _ _ G). exact I.
         * simpl in C2. destruct (IH' e2 D2 F2 C2) as [v [E Ty]]. exists v. split; [exact E | apply merged_ok_l; exact Ty].
       + destruct (guard_ok is_unbound e3 e1 false) eqn:G.
-        * destruct (guard_sound _ _ _ _ _ _ _ _ _ _ _ _ e3 e1 false vc G F3 F1 Ec T) as [v E].
+        * destruct (guard_sound _ _ _ _ _ _ _ _ _ _ _ _ _ _ e3 e1 false vc G F3 F1 Ec T) as [v E].
           exists v. split; [exact E|]. rewrite (guard_kpt _ _ _ G). destruct (kpt e2); exact I.
         * simpl in C3. destruct (IH' e3 D3 F3 C3) as [v [E Ty]]. exists v. split; [exact E | apply merged_ok_r; exact Ty].
     - (* EArray *)
@@ -367,7 +481,7 @@ Section Main.
         rewrite Ea, bind_ret. cbn [kpt]. destruct (truthy a) eqn:T.
         * exists a. split; [reflexivity | apply merged_ok_l; exact Ta].
         * destruct (guard_ok is_unbound e2 e1 false) eqn:G.
-          -- destruct (guard_sound _ _ _ _ _ _ _ _ _ _ _ _ e2 e1 false a G F2 F1 Ea T) as [v E].
+          -- destruct (guard_sound _ _ _ _ _ _ _ _ _ _ _ _ _ _ e2 e1 false a G F2 F1 Ea T) as [v E].
              exists v. split; [exact E|]. rewrite (guard_kpt _ _ _ G). destruct (kpt e1); exact I.
           -- simpl in C2. destruct (IH' e2 D2 F2 C2) as [b [Eb Tb]]. exists b. split; [exact Eb | apply merged_ok_r; exact Tb].
       + (* && *) apply andb_true_iff in C as [C1 C2].
@@ -376,7 +490,7 @@ Section Main.
         change (ev (EBinary BAnd e1 e2)) with (bind (ev e1) (fun a => if truthy a then ev e2 else ret a)).
         rewrite Ea, bind_ret. cbn [kpt]. destruct (truthy a) eqn:T.
         * destruct (guard_ok is_unbound e2 e1 true) eqn:G.
-          -- destruct (guard_sound _ _ _ _ _ _ _ _ _ _ _ _ e2 e1 true a G F2 F1 Ea T) as [v E].
+          -- destruct (guard_sound _ _ _ _ _ _ _ _ _ _ _ _ _ _ e2 e1 true a G F2 F1 Ea T) as [v E].
              exists v. split; [exact E|]. rewrite (guard_kpt _ _ _ G). destruct (kpt e1); exact I.
           -- simpl in C2. destruct (IH' e2 D2 F2 C2) as [b [Eb Tb]]. exists b. split; [exact Eb | apply merged_ok_r; exact Tb].
         * exists a. split; [reflexivity | apply merged_ok_l; exact Ta].
@@ -398,12 +512,185 @@ Section Main.
       + exists (VStr []). split; [|reflexivity].
         change (ev (ETemplate None pure parts)) with (ev_parts parts).
         apply (parts_ok n IH'); [exact Dp | exact F1 | destruct pure; exact C].
-    - (* EClass *) destruct F.
+    - (* EClass *)
+      assert (D1 : (depth e < n)%nat) by (simpl in D; lia). simpl in F.
+      destruct (IH' e D1 F C) as [v [E _]]. exists v. split; [exact E | exact I].
     - (* EAnnotation *) subst. simpl in F. destruct F as [v [E T]]. exists v. split; [exact E | exact T].
     - (* EInlinedEnum *)
       assert (D1 : (depth e < n)%nat) by (simpl in D; lia).
       destruct (IH' e D1 F C) as [v [E T]]. exists v. split; [exact E | exact T].
-    - (* CClass *) destruct F.
+    - (* CClass *)
+      destruct F as [FE FP].
+      apply andb_true_iff in C as [C CP]. apply andb_true_iff in C as [CD CE].
+      apply negb_true_iff in CD. subst decorated.
+      exists (VObj 0). split; [|exact I].
+      change (ev (CClass false ext props use_define)) with
+        (bind (match ext with Some x => bind (ev x) o_heritage | None => ret VUndef end)
+              (fun _ => eval_members_with o_toprim o_opaque ev (CClass false ext props use_define) use_define props)).
+      assert (EE : exists v, (match ext with Some x => bind (ev x) o_heritage | None => ret VUndef end) = ([], Ok v)).
+      { destruct ext as [x|]; [|eexists; reflexivity]. simpl in CE, FE.
+        destruct (IH' x ltac:(simpl in D; lia) FE CE) as [v [E _]]. destruct (heritage_ok v) as [w W].
+        exists w. rewrite E, bind_ret. exact W. }
+      destruct EE as [v EE]. rewrite EE, bind_ret.
+      apply (members_ok n IH' IS); [simpl in D; lia | exact FP | exact CP].
+  Qed.
+
+  (* ---- statements ---- *)
+  Definition elem_pred (it : node) : bool :=
+    match it with
+    | BItem ib def => opt_all cr def && match ib with BIdent | BMissing => true | _ => false end
+    | _ => false
+    end.
+
+  Lemma elems_ok n (IH : IHn n) whole : forall l i,
+    (dlist depth l < n)%nat -> all_ok flags_ok l -> forallb elem_pred l = true ->
+    eval_elems_with o_opaque default_runs ev whole i l = ([], Ok VUndef).
+  Proof.
+    induction l as [|x r IHl]; intros i D F C; [reflexivity|].
+    change (dlist depth (x :: r)) with (Nat.max (depth x) (dlist depth r)) in D.
+    simpl in F, C. apply andb_true_iff in C as [C1 C2]. destruct F as [F1 F2].
+    assert (Dx : (depth x < n)%nat) by lia.
+    destruct x; simpl in C1; try discriminate C1.
+    apply andb_true_iff in C1 as [CD CB]. destruct F1 as [_ FD]. simpl in Dx.
+    assert (ED : exists v, (match default with
+                            | Some d => if default_runs whole i then ev d else ret VUndef
+                            | None => ret VUndef end) = ([], Ok v)).
+    { destruct default as [d|]; [|eexists; reflexivity]. simpl in CD, FD, Dx.
+      destruct (default_runs whole i); [|eexists; reflexivity].
+      destruct (IH d ltac:(lia) FD CD) as [v [E _]]. exists v. exact E. }
+    destruct ED as [v ED].
+    cbn [eval_elems_with]. rewrite ED, bind_ret.
+    destruct x; try discriminate CB; apply IHl; try lia; assumption.
+  Qed.
+
+  Definition decl_pred (k : lkind) (d : node) : bool :=
+    match d with
+    | DDecl b value =>
+      (match b with
+       | BIdent => true
+       | BArray items =>
+         match value with
+         | Some (EArray _) => forallb elem_pred items
+         | _ => false
+         end
+       | _ => false
+       end)
+      && match value with
+         | None => true
+         | Some v => cr v
+                     && (match k with
+                         | LUsing => match kpt v with TNull | TUndefined => true | _ => false end
+                         | _ => true end)
+         end
+    | _ => false
+    end.
+
+  Lemma decls_ok n (IH : IHn n) whole k : k <> LAwaitUsing -> forall l,
+    (dlist depth l < n)%nat -> all_ok flags_ok l -> forallb (decl_pred k) l = true ->
+    eval_decls_with o_opaque default_runs ev whole k l = ([], Ok VUndef).
+  Proof.
+    intro NK. induction l as [|x r IHl]; intros D F C; [reflexivity|].
+    change (dlist depth (x :: r)) with (Nat.max (depth x) (dlist depth r)) in D.
+    simpl in F, C. apply andb_true_iff in C as [C1 C2]. destruct F as [F1 F2].
+    assert (Dx : (depth x < n)%nat) by lia.
+    specialize (IHl ltac:(lia) F2 C2).
+    destruct x; simpl in C1; try discriminate C1.
+    apply andb_true_iff in C1 as [CB CV]. destruct F1 as [FB FV]. simpl in Dx.
+    (* the initialiser *)
+    assert (EV : exists v, opt_eval ev value = ([], Ok v) /\
+                 (match k, value with LUsing, Some _ => nullish v = true | _, _ => True end)).
+    { destruct value as [x0|]; [|exists VUndef; split; [reflexivity | destruct k; exact I]].
+      simpl in FV, Dx. apply andb_true_iff in CV as [CV CU].
+      destruct (IH x0 ltac:(lia) FV CV) as [v [E T]]. exists v. split; [exact E|].
+      destruct k; try exact I. destruct (kpt x0); try discriminate CU; simpl in T; destruct v; try discriminate T; reflexivity. }
+    destruct EV as [v [EV NU]].
+    (* the pattern *)
+    assert (EB : (match x with
+                  | BIdent => ret VUndef
+                  | BArray items =>
+                    match value with
+                    | Some (EArray _) => eval_elems_with o_opaque default_runs ev whole O items
+                    | _ => o_opaque whole
+                    end
+                  | _ => o_opaque whole
+                  end) = ([], Ok VUndef)).
+    { destruct x; try discriminate CB; [reflexivity|].
+      destruct value as [x0|]; [|discriminate CB]. destruct x0; try discriminate CB.
+      simpl in FB, Dx. apply (elems_ok n IH); [lia | exact FB | exact CB]. }
+    cbn [eval_decls_with]. rewrite EV, bind_ret, EB, bind_ret.
+    assert (EU : (match k, value with
+                  | LUsing, Some _ => if nullish v then ret VUndef else o_opaque whole
+                  | _, _ => ret VUndef end) = ([], Ok VUndef)).
+    { destruct k; try reflexivity. destruct value; [|reflexivity]. rewrite NU. reflexivity. }
+    rewrite EU, bind_ret. exact IHl.
+  Qed.
+
+  Lemma stmt_step n (IH' : IHn n) (IS : IHs n) : forall e,
+    (depth e < S n)%nat -> flags_ok e -> so e = true -> exists v, ev e = ([], Ok v).
+  Proof.
+    intros e D F C.
+    destruct e; cbn in C; try discriminate C; try (eexists; reflexivity).
+    - (* SClass *)
+      simpl in F. destruct (IH' e ltac:(simpl in D; lia) F C) as [v [E _]].
+      exists VUndef. change (ev (SClass e)) with (bind (ev e) (fun _ => ret VUndef)). rewrite E, bind_ret. reflexivity.
+    - (* SExpr *)
+      simpl in F. assert (E : exists v, ev e = ([], Ok v)).
+      { destruct from_removable; [exact F|]. rewrite orb_false_r in C.
+        destruct (IH' e ltac:(simpl in D; lia) F C) as [v [E _]]. exists v. exact E. }
+      destruct E as [v E]. exists VUndef.
+      change (ev (SExpr e from_removable)) with (bind (ev e) (fun _ => ret VUndef)). rewrite E, bind_ret. reflexivity.
+    - (* SLocal *)
+      simpl in F. exists VUndef.
+      assert (NK : k <> LAwaitUsing) by (intro; subst; discriminate C).
+      assert (E : eval_decls_with o_opaque default_runs ev (SLocal k decls) k decls = ([], Ok VUndef)).
+      { apply (decls_ok n IH'); [exact NK | simpl in D; lia | exact F | destruct k; try exact C; congruence]. }
+      destruct k; try congruence; exact E.
+    - (* STry *)
+      destruct F as [FB FF]. apply andb_true_iff in C as [CB CF].
+      exists VUndef.
+      change (ev (STry block has_finally fin)) with
+        (match eval_seq_with ev block with
+         | (t, Ok _) => let '(t2, r2) := (if has_finally then eval_seq_with ev fin else ret VUndef) in (t ++ t2, r2)
+         | (t, Throw) => let '(t2, r2) := o_opaque (STry block has_finally fin) in (t ++ t2, r2)
+         end).
+      rewrite (seq_ok n IS block ltac:(simpl in D; lia) FB CB).
+      destruct has_finally; [|reflexivity]. simpl in CF.
+      rewrite (seq_ok n IS fin ltac:(simpl in D; lia) FF CF). reflexivity.
+    - (* SExportDefaultExpr *)
+      simpl in F. destruct (IH' e ltac:(simpl in D; lia) F C) as [v [E _]].
+      exists VUndef. change (ev (SExportDefaultExpr e)) with (bind (ev e) (fun _ => ret VUndef)). rewrite E, bind_ret. reflexivity.
+    - (* SExportDefaultClass *)
+      simpl in F. destruct (IH' e ltac:(simpl in D; lia) F C) as [v [E _]].
+      exists VUndef. change (ev (SExportDefaultClass e)) with (bind (ev e) (fun _ => ret VUndef)). rewrite E, bind_ret. reflexivity.
+  Qed.
+
+  Lemma both : forall n, IHn n /\ IHs n.
+  Proof.
+    induction n as [|n [A B]]; [split; intros c D; lia|].
+    split; intros c D F C; [apply (expr_step n A B c D F C) | apply (stmt_step n A B c D F C)].
+  Qed.
+
+  Theorem removable_good : forall n e, (depth e < n)%nat -> flags_ok e -> cr e = true -> good e.
+  Proof. intros n. exact (proj1 (both n)). Qed.
+
+  (* StmtsCanBeRemovedIfUnused(stmts, flags) = true: executing the statements
+     logs nothing and does not throw *)
+  Theorem removable_stmts_silent keep ret l :
+    all_ok flags_ok l -> stmts_can_remove is_unbound keep ret l = true ->
+    exists v, exec_stmts is_unbound env glob imp this_val o_toprim o_iter o_get o_opaque o_annotated rel_prim loose_prim o_heritage default_runs l = ([], Ok v).
+  Proof.
+    unfold exec_stmts, stmts_can_remove. induction l as [|x r IHl]; intros F C; [eexists; reflexivity|].
+    simpl in F, C. apply andb_true_iff in C as [C1 C2]. destruct F as [F1 F2].
+    destruct (IHl F2 C2) as [w W].
+    assert (E : exists v, ev x = ([], Ok v)).
+    { destruct (both (S (depth x))) as [A B].
+      destruct x; try (apply (B _ (Nat.lt_succ_diag_r _) F1 C1)); simpl in C1.
+      - (* SExportClause *) eexists; reflexivity.
+      - (* SReturn *) apply andb_true_iff in C1 as [_ C1]. destruct v as [x|]; [|eexists; reflexivity].
+        simpl in C1, F1. destruct (A x ltac:(simpl; lia) F1 C1) as [u [E _]]. exists u. exact E. }
+    destruct E as [v E]. exists w.
+    change (eval_seq_with ev (x :: r)) with (bind (ev x) (fun _ => eval_seq_with ev r)).
+    rewrite E, bind_ret. exact W.
   Qed.
 
   (* expressions without any purity annotation or parser-set purity flag *)
@@ -415,14 +702,25 @@ Section Main.
     | EIf c y n => plain c && plain y && plain n
     | EArray l | EObject l => forallb plain l
     | ESpread x => plain x
-    | PProp _ _ _ _ _ key value _ _ => plain key && match value with Some v => plain v | None => true end
+    | PProp _ _ _ _ _ key value init block =>
+      plain key && match value with Some v => plain v | None => true end
+      && match init with Some v => plain v | None => true end && forallb plain block
     | ECall _ args p | ENew _ args p => negb p && forallb plain args
     | EUnary _ x _ => plain x
     | EBinary _ l r => plain l && plain r
     | ETemplate tag p parts => negb p && forallb plain parts
-    | EClass _ | CClass _ _ _ _ => false
+    | EClass c => plain c
+    | CClass _ ext props _ => match ext with Some v => plain v | None => true end && forallb plain props
     | EAnnotation x flag => negb flag && plain x
     | EInlinedEnum x => plain x
+    | SClass c | SExportDefaultClass c | SExportDefaultExpr c => plain c
+    | SReturn v => match v with Some x => plain x | None => true end
+    | SExpr x from => negb from && plain x
+    | SLocal _ decls => forallb plain decls
+    | STry b _ f => forallb plain b && forallb plain f
+    | DDecl b v => plain b && match v with Some x => plain x | None => true end
+    | BArray items => forallb plain items
+    | BItem b d => plain b && match d with Some x => plain x | None => true end
     | _ => true
     end.
 
@@ -440,10 +738,11 @@ Section Main.
     destruct e; simpl in P; try discriminate P; simpl; auto;
       repeat match goal with H : _ && _ = true |- _ => apply andb_true_iff in H as [? ?] end;
       repeat match goal with H : negb _ = true |- _ => apply negb_true_iff in H; subst end.
-    all: try (destruct value).
-    all: repeat split; intros; try discriminate; try exact I; try congruence;
-         try (apply IH; [simpl in D; lia | assumption]);
-         try (eapply plain_list; [exact IH | simpl in D; lia | assumption]).
+    all: repeat match goal with o : option node |- _ => destruct o end.
+    all: simpl in D.
+    all: repeat split; intros; simpl; try discriminate; try exact I; try congruence;
+         try (apply IH; [lia | assumption]);
+         try (eapply plain_list; [exact IH | lia | assumption]).
   Qed.
 
   Theorem removable_silent e : flags_ok e -> cr e = true -> exists v, ev e = ([], Ok v).
@@ -454,5 +753,14 @@ Section Main.
   Theorem removable_silent_plain e : plain e = true -> cr e = true -> exists v, ev e = ([], Ok v).
   Proof.
     intros P C. apply removable_silent; [|exact C]. apply (plain_flags (S (depth e))); [apply Nat.lt_succ_diag_r | exact P].
+  Qed.
+
+  Theorem removable_stmts_silent_plain keep ret l :
+    forallb plain l = true -> stmts_can_remove is_unbound keep ret l = true ->
+    exists v, exec_stmts is_unbound env glob imp this_val o_toprim o_iter o_get o_opaque o_annotated rel_prim loose_prim o_heritage default_runs l = ([], Ok v).
+  Proof.
+    intros P C. apply (removable_stmts_silent keep ret); [|exact C].
+    apply (plain_list (S (dlist depth l))); [|apply Nat.lt_succ_diag_r | exact P].
+    intros c D Pc. apply (plain_flags (S (dlist depth l))); assumption.
   Qed.
 End Main.
